@@ -265,7 +265,18 @@ struct PassResult {
     sink_fired: bool,
 }
 
+static LAST_PANIC_ANY_THREAD: std::sync::Mutex<String> = std::sync::Mutex::new(String::new());
+
+fn last_panic_message() -> String {
+    let local = LAST_PANIC.with(|p| p.borrow().clone());
+    if !local.is_empty() {
+        return local;
+    }
+    LAST_PANIC_ANY_THREAD.lock().map(|g| g.clone()).unwrap_or_default()
+}
+
 fn run_pass(call: &Call, funcs: &Tables, vals: Option<&calls::Vals>, pass: &Pass) -> PassResult {
+    LAST_PANIC.with(|p| p.borrow_mut().clear());
     set_clock_mode(pass.clock);
     let mut sink = FaultySink::new(pass.sink_fail_at, pass.sink_capacity, pass.then_refuse_alloc);
     sink.reentrant = pass.reentrant_sink;
@@ -301,7 +312,7 @@ fn run_pass(call: &Call, funcs: &Tables, vals: Option<&calls::Vals>, pass: &Pass
             PassResult {
                 outcome: if after.is_ok() { "caller-sink-panicked" } else { "panic" },
                 panicked: after.is_err(),
-                panic_msg: if after.is_err() { format!("after a panic inside the caller's sink had unwound through the crate, a later ordinary call panicked: {}", LAST_PANIC.with(|p| p.borrow().clone())) } else { String::new() },
+                panic_msg: if after.is_err() { format!("after a panic inside the caller's sink had unwound through the crate, a later ordinary call panicked: {}", last_panic_message()) } else { String::new() },
                 writes: sink.writes,
                 bytes: sink.bytes,
                 allocs: a2,
@@ -313,7 +324,7 @@ fn run_pass(call: &Call, funcs: &Tables, vals: Option<&calls::Vals>, pass: &Pass
         Err(_) => PassResult {
             outcome: "panic",
             panicked: true,
-            panic_msg: LAST_PANIC.with(|p| p.borrow().clone()),
+            panic_msg: last_panic_message(),
             writes: sink.writes,
             bytes: sink.bytes,
             allocs: a2,
@@ -707,6 +718,15 @@ fn exec_one(path: &str) -> i32 {
 // coordinator
 // ---------------------------------------------------------------------------
 
+/// The unoptimised build is an order of magnitude slower: it runs the first twentieth of the calls.
+fn calls_for(build: &str, n_calls: u64) -> u64 {
+    if build == "devchk" {
+        (n_calls / 20).max(1)
+    } else {
+        n_calls
+    }
+}
+
 fn build_exe(build: &str) -> std::path::PathBuf {
     simcore::verif_root().join("sim").join("target").join(build).join("c03")
 }
@@ -944,10 +964,10 @@ fn minimise(build: &str, call: Call, pass: Pass, class: &str, scratch: &std::pat
             }
             call = Call::Format { ty, raw: r, pic: p, display, flags: fl };
         }
-        Call::Held { ty, raw, pic, fty, fillers, at_once } => {
+        Call::Held { ty, raw, pic, fty, fillers, at_once, other_thread } => {
             // fewer fillers, one at a time
             let mut f = fillers;
-            let mk = |f: &Vec<(i64, String)>| Call::Held { ty, raw, pic: pic.clone(), fty, fillers: f.clone(), at_once };
+            let mk = |f: &Vec<(i64, String)>| Call::Held { ty, raw, pic: pic.clone(), fty, fillers: f.clone(), at_once, other_thread };
             let mut i = 0;
             while i < f.len() {
                 let mut cand = f.clone();
@@ -998,7 +1018,7 @@ fn coordinator(tier: &str, calls_override: Option<u64>, out: &std::path::Path) -
     let t0 = simcore::real_monotonic_s();
     let n_calls: u64 = calls_override.unwrap_or(if thorough { 60_000_000 } else { 2_000_000 });
     let workers = simcore::pool::default_workers() as u64;
-    let builds = ["relchk", "release"];
+    let builds = ["relchk", "release", "devchk"];
     let known = simcore::known::load();
     let scratch = simcore::verif_root().join("sim").join("target").join("c03-scratch.json");
 
@@ -1060,7 +1080,7 @@ fn coordinator(tier: &str, calls_override: Option<u64>, out: &std::path::Path) -
         }
         let mut children = Vec::new();
         for k in 0..workers {
-            match spawn_worker(build, seed, n_calls, k, workers, false, None) {
+            match spawn_worker(build, seed, calls_for(build, n_calls), k, workers, false, None) {
                 Ok(c) => children.push((k, c)),
                 Err(e) => {
                     eprintln!("harness error: cannot spawn worker: {e}");
@@ -1112,7 +1132,7 @@ fn coordinator(tier: &str, calls_override: Option<u64>, out: &std::path::Path) -
             } else {
                 // the worker died: re-run its slice with tracing to find the pass
                 println!("worker {k} of build {build} died ({}); re-running its slice with tracing", o.crashed.clone().unwrap_or_default());
-                let traced = spawn_worker(build, seed, n_calls, k, workers, true, None).map(collect_trace);
+                let traced = spawn_worker(build, seed, calls_for(build, n_calls), k, workers, true, None).map(collect_trace);
                 match traced {
                     Ok(Some((idx, pno))) => {
                         // regenerate the call and the pass list deterministically
@@ -1134,7 +1154,7 @@ fn coordinator(tier: &str, calls_override: Option<u64>, out: &std::path::Path) -
         println!(
             "build {}: calls={} passes so far={} ({:.1}s)",
             build,
-            n_calls,
+            calls_for(build, n_calls),
             totals.get("passes").copied().unwrap_or(0),
             simcore::real_monotonic_s() - t0
         );
@@ -1188,7 +1208,7 @@ fn coordinator(tier: &str, calls_override: Option<u64>, out: &std::path::Path) -
             let mut hist: Option<(u64, String)> = None;
             for back in [0u64, 1, 2, 4, 8, 16, 64, 256, 1024, 4096, 1 << 14, 1 << 20] {
                 let from = idx.saturating_sub(back * workers);
-                if let Some(r) = exec_history(build, seed, n_calls, workers, from, *idx) {
+                if let Some(r) = exec_history(build, seed, calls_for(build, n_calls), workers, from, *idx) {
                     hist = Some((from, r));
                     break;
                 }
@@ -1214,7 +1234,7 @@ fn coordinator(tier: &str, calls_override: Option<u64>, out: &std::path::Path) -
                     let path = simcore::verif_root().join("replays").join(format!("C03-{}-{}-{}-history.json", seed, idx, build));
                     let body = json!({
                         "property": PROPERTY, "kind": "history", "class": class_of(&r), "signature": sig, "build": build, "seed": seed, "env": simcore::envswarm::installed_json(),
-                        "calls_total": n_calls, "of": workers, "from": from, "until": idx, "result": r,
+                        "calls_total": calls_for(build, n_calls), "of": workers, "from": from, "until": idx, "result": r,
                         "describe": format!("calls {}..={} with index % {} == {} generated from seed {}, every pass of each; the last one is {}", from, idx, workers, idx % workers, seed, call.describe()),
                         "call": call.to_json(), "pass": pass.to_json(),
                     });
@@ -1345,7 +1365,7 @@ fn coordinator(tier: &str, calls_override: Option<u64>, out: &std::path::Path) -
             "samples": samples,
             "calls_per_build": n_calls,
             "builds": builds,
-            "build_profiles": {"relchk": "optimised, overflow-checks = true, debug-assertions = true", "release": "optimised, both off"},
+            "build_profiles": {"relchk": "optimised, overflow-checks = true, debug-assertions = true", "release": "optimised, both off", "devchk": "crate under test and harness at opt-level 0 with overflow checks and debug assertions (the configuration of cargo test / cargo build); runs the first twentieth of the calls"},
             "calls": totals.get("calls").copied().unwrap_or(0),
             "seamless_calls": totals.get("seamless_calls").copied().unwrap_or(0),
             "calls_with_sink_writes": totals.get("calls_with_sink").copied().unwrap_or(0),
@@ -1363,6 +1383,7 @@ fn coordinator(tier: &str, calls_override: Option<u64>, out: &std::path::Path) -
             "workers": workers,
             "first_use_probes": {"fresh_processes": first_use_probes, "what": "first serde serialization/deserialization of each type in a process (builds the shared static formatters) with allocation request 0..3 refused once / persistently, then the same calls fault-free; harness-side non-allocating serializer and deserializer; third-party start-up allocation (parking_lot table) warmed up first"},
             "interleavings": miri_note,
+            "environment_swarm": simcore::envswarm::evidence(seed, workers),
             "process_isolation": "each build runs in worker processes; a worker death (abort, stack overflow) is located by a traced re-run and confirmed in a fresh process",
             "components": {
                 "real": ["all of sqldatetime in two build configurations", "core::fmt machinery between LazyFormat and the sink"],
@@ -1554,6 +1575,10 @@ fn main() {
         // first thing: stop refusing allocations, the panic machinery needs them
         let _ = alloc::disarm();
         let msg = format!("{}", info);
+        // (a panic on a helper thread — a held value rendered elsewhere — is read from here)
+        if let Ok(mut g) = LAST_PANIC_ANY_THREAD.lock() {
+            *g = msg.clone();
+        }
         let _ = LAST_PANIC.try_with(|p| {
             if let Ok(mut p) = p.try_borrow_mut() {
                 *p = msg;
